@@ -1262,8 +1262,13 @@ impl TypeChecker {
                     b.display(&self.type_info),
                 )
             }
-            // The never type is special and unifies with anything
-            (Never, x) | (x, Never) => x,
+            // The never type is special: an expression that never yields a
+            // value (like `return`) fits wherever any type is expected...
+            (x, Never) => x,
+            // ...but no value has the never type, so nothing concrete fits
+            // where `!` is expected (e.g. `let x: ! = 5;`).
+            (Never, x @ Var(_)) => x,
+            (Never, _) => return None,
             (IntVar(a, a_signed), IntVar(b, b_signed)) => {
                 self.unify_intvars(a, a_signed, b, b_signed)
             }
@@ -1447,7 +1452,19 @@ impl TypeChecker {
             let idx =
                 b_fields.iter().position(|(n, _)| n.node == name.node)?;
             let (_, b_ty) = b_fields.remove(idx);
-            new_fields.push((name.clone(), self.unify_inner(a_ty, &b_ty)?))
+            let unified = self.unify_inner(a_ty, &b_ty)?;
+
+            // A field that is declared with the never type can only be
+            // initialised by an expression that never yields a value, so
+            // the still unknown type of that expression becomes `!` too.
+            match (self.resolve_type(a_ty), self.resolve_type(&b_ty)) {
+                (Type::Var(v), Type::Never) | (Type::Never, Type::Var(v)) => {
+                    self.type_info.unionfind.set(v, Type::Never);
+                }
+                _ => {}
+            }
+
+            new_fields.push((name.clone(), unified))
         }
 
         Some(new_fields)
